@@ -112,6 +112,49 @@ def result_core(res):
     return res
 
 
+def _t1_lir_by_evaluation(F, r, b):
+    from .. import sx
+    opos = [i for i, p_ in enumerate(b.hir["params"]) if "BinOp" in str(p_.get("ty") or "")]
+    if not opos:
+        r.missing("the operator parameter of lir::lower::binop")
+        return
+    opaque = {p for p in F.paths() if p.startswith("lir::lower") and p != b.path and (hir.last(p).startswith("emit") or hir.last(p) in ("new_tmp", "lower_type", "var", "call_eq_of"))}
+    spec = {"Add": {("Add", None)}, "Sub": {("Sub", None)}, "Mul": {("Mul", None)}, "Div": {("Div", True), ("Div", False), ("FDiv", None)}, "Mod": {("Mod", True), ("Mod", False)}}
+    for op, want in spec.items():
+        key = "lir %s (evaluated)" % op
+        try:
+            ps = sx.Exec(F, opaque=opaque).paths(b.hir, {opos[0]: op})
+        except (sx.TooManyPaths, sx.Unknown) as e_:
+            r.bad(b.path, key, relfile(b.file), b.line, "cannot evaluate lir::lower::binop on BinOp::%s: %s" % (op, e_))
+            continue
+        got = set()
+        for res, evs in ps:
+            if res == ("diverges",):
+                continue
+            for e in evs:
+                for a in (e[3] if e[0] == "mcall" else e[2]):
+                    for c in sx.find_ctors(a, "Add") + sx.find_ctors(a, "Sub") + sx.find_ctors(a, "Mul") + sx.find_ctors(a, "Div") + sx.find_ctors(a, "FDiv") + sx.find_ctors(a, "Mod"):
+                        if sx.field_of(c, "left") is None:
+                            continue
+                        sg = sx.field_of(c, "signed")
+                        got.add((c[1], sg if isinstance(sg, bool) else None))
+        for k_ in ("int", "float"):
+            r.inst("lir %s %s" % (k_, op), {"op": op, "emits": sorted(got, key=str)})
+        if got != want:
+            r.bad(b.path, key, relfile(b.file), b.line, "BinOp::%s lowers to %s, expected %s (instruction, signed flag)" % (op, sorted(got, key=str), sorted(want, key=str)))
+    # every `signed:` field of an lir instruction built here or in a helper is `kind == IntKind::Signed`
+    for fb in hir.with_callees(F, b, depth=2, same_file=True):
+        ld = hir.LocalDefs(fb.hir)
+        for st in hir.nodes(fb.hir["value"], "struct"):
+            d = hir.res_def({"res": st["path"]}) or ""
+            fd = dict((f[0], f[1]) for f in st["fields"])
+            if "Instruction::" in d and "signed" in fd:
+                for signed in (True, False):
+                    if guard_truth(ld, fd["signed"], {"signed": signed}) is not signed:
+                        r.bad(fb.path, "%s signed" % hir.tail2(d), relfile(fb.file), st["line"], "`signed` flag of %s is not `kind == IntKind::Signed`" % hir.tail2(d))
+                        break
+
+
 def rule_t1(F):
     r = RuleResult("C01.T1", "operator selection chain (BinOp x kind) -> lir instruction / IntCmp / FloatCmp -> cranelift op / condition code", floor=13 * 2 + 6 + 10 + 6 + 9 + 9)
     # --- binop_to_int_cmp / binop_to_float_cmp / codegen int_cmp / float_cmp: every row is obtained by EVALUATING the function on the
@@ -233,7 +276,14 @@ def rule_t1(F):
             "int": {"Add": "Instruction::Add", "Sub": "Instruction::Sub", "Mul": "Instruction::Mul", "Div": "Instruction::Div", "Mod": "Instruction::Mod"},
             "float": {"Add": "Instruction::Add", "Sub": "Instruction::Sub", "Mul": "Instruction::Mul", "Div": "Instruction::FDiv"},
         }
-        for kind in ("int", "float"):
+        if "int" not in sections or "float" not in sections:
+            # the dispatch is written another way (a classification into a private enum and one match, helpers per group ..): the
+            # method is EVALUATED for each arithmetic operator (vf/sx: all paths, IntKind enumerated) and the set of instructions it
+            # can emit is compared with the language's table; every `signed:` field written in the method or its helpers must be
+            # `kind == IntKind::Signed`
+            _t1_lir_by_evaluation(F, r, b)
+            sections = {}
+        for kind in ("int", "float") if sections else ():
             if kind not in sections:
                 r.missing("`if let Primitive::%s` section in lir::lower::binop" % kind.capitalize())
                 continue
